@@ -19,7 +19,7 @@ PROPS = {
     },
 }
 
-HOOK_COMMITS = ["c5f0c72", "e06bdd6", "383c941"]
+HOOK_COMMITS = ["c5f0c72", "e06bdd6", "383c941", "2e35028"]
 
 PURE = "pure function of its input: no schedule, clock, fault, I/O or interleaving for a simulator to own (DESIGN.md section 8); no other technique is substituted"
 NOT_APPLICABLE = [
